@@ -2,6 +2,8 @@
 //! read from stdin and prints one canonical result line per case.
 mod common;
 mod r_hist;
+mod r_minmax;
+mod r_nan;
 mod r_sort;
 
 use common::Toks;
@@ -16,6 +18,8 @@ fn dispatch(routine: &str, t: &mut Toks) -> String {
     match routine {
         "partition" | "select" | "select_many" => r_sort::run(routine, t),
         "bins" | "grid" | "hist" | "histm" => r_hist::run(routine, t),
+        "remove_nan" | "skipnan" | "skipnan_axis" => r_nan::run(routine, t),
+        "minmax" => r_minmax::run(routine, t),
         "profile" => {
             if cfg!(debug_assertions) {
                 "OK debug".to_string()
